@@ -125,6 +125,88 @@ def r3_3(ctx, views=("release",)):
                 ctx.ok(rid, inst, "tool/witness/policies.cc")
 
 
+def _contributors(f, name, depth=0, acc=None):
+    """Locals that feed local `name` multiplicatively (assignment, *=, assign_r / neg_assign / mul_*)."""
+    acc = acc if acc is not None else set()
+    if name in acc or depth > 4:
+        return acc
+    acc.add(name)
+    for n in f.walk():
+        src = None
+        if n["k"] in ("assign", "ocall") and n.get("op") in ("=", "*=") and n.get("c") and f.deref(n["c"][0]) is not None \
+                and f.deref(n["c"][0])["k"] == "ref" and f.deref(n["c"][0]).get("n") == name:
+            src = [f.deref(n["c"][1])]
+        elif n["k"] == "call" and f.call_name(n) in ("assign_r", "neg_assign", "abs_assign", "mul_assign_r", "mul_2exp_assign", "mul_assign"):
+            a = f.call_args(n)
+            if a and a[0] is not None and a[0]["k"] == "ref" and a[0].get("n") == name:
+                src = a[1:]
+        elif n["k"] == "var" and n["n"] == name and n.get("c"):
+            src = [f.deref(n["c"][0])]
+        for s_ in src or ():
+            for x in f.walk(s_):
+                if x["k"] == "ref" and x.get("dk") in ("local", "param") and x["n"] != name:
+                    _contributors(f, x["n"], depth + 1, acc)
+    return acc
+
+
+def _coefficient_sources(f):
+    """{local: decl} for locals bound to `e.coefficient(v)` whose index is not known to hold a non-zero."""
+    nz_index = set()
+    for v in f.walk():
+        if v["k"] == "var" and v.get("c") and any(f.call_name(c) in ("last_nonzero", "first_nonzero") for c in f.calls(f.deref(v["c"][0]))):
+            nz_index.add(v["n"])
+    out = {}
+    for v in f.walk():
+        if v["k"] == "var" and v.get("c"):
+            init = f.deref(v["c"][0])
+            for c in f.calls(init):
+                if f.call_name(c) == "coefficient":
+                    idx = [x["n"] for a in f.call_args(c) for x in f.walk(a) if x["k"] == "ref"]
+                    if not any(i in nz_index for i in idx):
+                        out[v["n"]] = v
+    return out
+
+
+def r3_5(ctx, fx):
+    from pplv import flow
+    rid = "R3.5"
+    ctx.rule(rid, "no zero denominator: when a value obtained from `e.coefficient(v)` (which is zero whenever v does not occur in e) flows multiplicatively into the denominator of a rational (`assign_r(q.get_den(), d, ...)`), every path to that assignment passes a test that the coefficient is not zero (or the index came from last_nonzero() / first_nonzero()); otherwise canonicalize() divides by zero (GMP raises SIGFPE)")
+    n = 0
+    seen = set()
+    for f in fx.functions:
+        if f.flag("pattern") or not f.cfg or (f.relfile, f.line) in seen:
+            continue
+        seen.add((f.relfile, f.line))
+        srcs = None
+        for c in f.calls():
+            if c["k"] != "call" or f.call_name(c) != "assign_r":
+                continue
+            a = f.call_args(c)
+            if not a or "get_den()" not in f.text(a[0]) or a[1] is None or a[1]["k"] != "ref":
+                continue
+            n += 1
+            den = a[1]["n"]
+            if srcs is None:
+                srcs = _coefficient_sources(f)
+            inst = "%s::%s denominator `%s`" % (f.clsn or "", f.name, den)
+            bad = None
+            for s_ in sorted(_contributors(f, den) & set(srcs)):
+                def edge(tc, taken, s_=s_):
+                    t = f.text(tc).replace(" ", "")
+                    return (t in (s_ + "!=0", "0!=" + s_) and taken) or (t in (s_ + "==0", "0==" + s_) and not taken) or \
+                        (t in (s_ + ">0", s_ + "<0") and taken) or (t in (s_ + ">=0", s_ + "<=0") and not taken)
+                tgt = set(x["i"] for x in f.walk(c))
+                p = flow.Explorer(f).find_path("ENTRY", lambda y: False, lambda y: y["i"] in tgt, edge_blocked=edge)
+                if p is not None:
+                    bad = (s_, p)
+                    break
+            if bad is None:
+                ctx.ok(rid, inst, f.where(c))
+            else:
+                ctx.violation(rid, inst, f.where(c), "`%s` is multiplied by `%s`, a coefficient that is zero when the variable does not occur in the expression, and no test excludes that on the path %s" % (den, bad[0], flow.render_path(f, bad[1])))
+    ctx.floor(rid, n, 12, "rational denominators assigned from locals")
+
+
 def run(ctx):
     ctx.explanation = ("C03 rounding discipline on the instantiated weakly-relational domains (double, int32_t, mpz_class; mpq_class in the thorough tier): who may round "
                        "down, where ROUND_NOT_NEEDED may be used, and the encodings it rests on; decides the discipline, not the case analysis of the transformers")
@@ -133,3 +215,9 @@ def run(ctx):
     fx = ctx.extract(units(ctx.tier))
     r3_1_2(ctx, fx)
     r3_3(ctx)
+    from rules import dirty
+    fxb = ctx.extract([F.driver_unit("domains.cc", file_re=r"(Box|Interval|Boundary|BD_Shape|Octagonal_Shape|DB_Matrix|OR_Matrix)_(templates|inlines|defs)\.hh"),
+                       F.driver_unit("shapes_mpq.cc", file_re=r"(BD_Shape|Octagonal_Shape)_(templates|inlines)\.hh")])
+    r3_5(ctx, fxb)
+    dirty.run(ctx, "R3.4", fxb, lambda f: True, 150,
+              "judged on Box<Rational_Interval>, BD_Shape<mpq_class>, Octagonal_Shape<mpq_class> and their matrices (found Box::generalized_affine_preimage multiplying by a never-written temporary)")
